@@ -451,6 +451,44 @@ def run_formats(acc):
                 if m is ms[0] and ("1234.5" not in s or "3.0" not in s or ("meter" not in s and "\\m" not in s and " m" not in s)):
                     acc.violation(["format", spec, "value-error-or-unit-missing-from-the-rendering", ""], case, "1234.5, 3.0, meter", s)
             acc.outcome("format")
+    # exponent notation under every flavour: (a +/- b) x 10^N in the flavour's markup, N read back from the markup
+    import re
+    SUPD = str.maketrans("⁰¹²³⁴⁵⁶⁷⁸⁹⁻⁺", "0123456789-+")
+    ems = [Meas(4.0, 0.1, "second"), Meas(1234.5, 3.0, "meter"), Meas(2.0e-9, 1.0e-10, "meter"), Meas(45.0, 1.5, "meter"), Meas(-7.25, 0.5, "second"), Meas(0.5, 0.125, "meter")]
+    for m in ems:
+        for nspec, flav in itertools.product(("e", ".2e", ".3e", ".1ue"), ("", "D", "P", "H", "L", "~P", "~H", "C")):
+            acc.ev()
+            acc.nt(("fmt-exp", repr(m), nspec, flav))
+            spec = nspec + flav
+            o = call(lambda: format(m, spec))
+            case = {"measurement": repr(m), "spec": spec}
+            if o[0] != "ok":
+                acc.violation(["format", spec, "raises", o[1]], case, "a string", o[1])
+                continue
+            s_ = o[1]
+            t = s_.replace("&plusmn;", "+/-").replace("±", "+/-").replace("\\pm", "+/-").replace("&times;", "×").replace("\\times", "×").replace("\\left(", "(").replace("\\right)", ")")
+            mm = re.search(r"\(?\s*(-?[0-9.]+)\s*\+/-\s*([0-9.]+)\s*\)?\s*(?:×\s*10\s*(?:<sup>([^<]*)</sup>|\^\{([^}]*)\}|([⁰¹²³⁴⁵⁶⁷⁸⁹⁻⁺]+))|[eE]([-+]?[0-9]+))", t)
+            if not mm:
+                mm2 = re.search(r"\(?\s*(-?[0-9.]+)(?:[eE]([-+]?[0-9]+))?\s*\+/-\s*([0-9.]+)(?:[eE]([-+]?[0-9]+))?", t)
+                if not mm2:
+                    acc.violation(["format", flav or "default", "exponent-rendering-unreadable", nspec], case, "(a +/- b) x 10^N", s_)
+                    continue
+                v = float(mm2.group(1)) * 10 ** int(mm2.group(2) or 0)
+                e = float(mm2.group(3)) * 10 ** int(mm2.group(4) or 0)
+                quantum = 10.0 ** (int(mm2.group(2) or 0) - (len(mm2.group(1).split(".")[1]) if "." in mm2.group(1) else 0))
+            else:
+                raw = next((g for g in mm.groups()[2:] if g is not None), None)
+                try:
+                    N = int((raw or "").translate(SUPD))
+                except ValueError:
+                    acc.violation(["format", flav or "default", "exponent-missing-or-not-a-number", nspec], case, "an integer exponent", s_)
+                    continue
+                v, e = float(mm.group(1)) * 10.0 ** N, float(mm.group(2)) * 10.0 ** N
+                quantum = 10.0 ** (N - (len(mm.group(1).split(".")[1]) if "." in mm.group(1) else 0))
+            nv, ne = m.magnitude.nominal_value, m.magnitude.std_dev
+            # value and error are printed to the same last digit: each is right to within half a unit of it
+            if abs(v - nv) > 0.51 * quantum or abs(e - ne) > 0.51 * quantum:
+                acc.violation(["format", flav or "default", "exponent-rendering-denotes-another-measurement", nspec], case, [nv, ne], [s_, v, e])
     acc.sample({"clause": "format", "measurement": "(1234.5 +/- 3.0) meter", "specs": specs})
 
 
